@@ -96,6 +96,13 @@ impl Gen {
                 if entity_value && [60, 38, 37].contains(&c) {
                     c = 120;
                 }
+                if self.cr && self.r.gen_bool(0.04) {
+                    // runs of line-end characters: CR CR LF, CR LF LF, LF CR LF (2.11 is not idempotent on them when done wrongly)
+                    for x in *[[13u32, 13, 10], [13, 10, 10], [10, 13, 10]].choose(&mut self.r).unwrap() {
+                        v.push(json!({"t": "c", "c": x}));
+                    }
+                    continue;
+                }
                 v.push(json!({"t": "c", "c": c}));
             } else if k < 8 {
                 let mut c = *[65u32, 9, 10, 13, 32, 60, 38, 0xE9, 0x1F600, 0x10FFFF, 34, 39]
